@@ -35,7 +35,7 @@ def svd_case(draw):
     index = draw(st.integers(1, d - 1))
     klass = draw(st.sampled_from(['generic', 'generic', 'constructed', 'preorth']))
     cplx = draw(st.booleans())
-    case = {'rows': rows, 'index': index, 'klass': klass, 'cplx': cplx, 'seed': draw(gen.SEED), 'scale_exp': draw(st.sampled_from([0, 0, 0, -12, -4, 5])),
+    case = {'rows': rows, 'index': index, 'klass': klass, 'cplx': cplx, 'seed': draw(gen.SEED), 'scale_exp': draw(st.sampled_from([0, 0, 0, -12, -4, 5, -20, -30, 15])),
             'overwrite': draw(st.booleans()), 'layout': draw(gen.LAYOUT)}
     if klass == 'generic':
         case['ranks'] = [1] + [draw(gen.SMALL_RANK) for _ in range(d - 1)] + [1]
@@ -52,12 +52,19 @@ def svd_case(draw):
             exps.append(exps[-1] - draw(st.sampled_from([0.0, 0.1, 2.0, 2.5, 3.0])))
         case['spectrum_exp'] = exps
         case['side_rank'] = draw(st.integers(1, 3))
-        cut = draw(st.sampled_from(['none', 'threshold', 'threshold']))
+        cut = draw(st.sampled_from(['none', 'mid_gap', 'mid_gap', 'just_below', 'just_below']))
         gaps = [j for j in range(1, k) if exps[j - 1] - exps[j] >= 2.0]
-        if cut != 'none' and gaps:
+        # 'just_below': the threshold sits 20 % below the last kept singular-value ratio (the next one is at least 26 % lower)
+        tight = [j for j in range(1, k + 1) if j == k or exps[j - 1] - exps[j] >= 0.1]
+        if cut == 'mid_gap' and gaps:
             j = draw(st.sampled_from(gaps))      # keep j singular values
             case['keep'] = j
             case['threshold'] = float(10.0 ** (0.5 * (exps[j - 1] + exps[j])))
+        elif cut == 'just_below' and tight and exps[0] == 0.0:
+            j = draw(st.sampled_from(tight))
+            case['keep'] = j
+            case['tight'] = True
+            case['threshold'] = float(10.0 ** exps[j - 1] / 1.2)
         else:
             case['threshold'] = draw(st.sampled_from([0, 0, 1e-12]))
         case['max_rank'] = draw(st.sampled_from([None, None, 64]))
@@ -142,6 +149,8 @@ def body_svd(case):
         lab.add('size1mode')
     if 'keep' in case:
         lab.add('real_cut')
+        if case.get('tight'):
+            lab.add('cut_just_below_a_singular_value')
     if case['overwrite']:
         lab.add('overwrite')
     if case.get('scale_exp', 0):
@@ -218,5 +227,5 @@ def nt(labels):
 SUBCHECKS = [
     Sub('svd_pinv', svd_case(), body_svd, nt, quick=600, thorough=8000, shards_quick=8,
         classes=['generic', 'constructed', 'preorth', 'complex', 'inner_split', 'real_cut',
-                 'rank_deficient', 'overwrite', 'no_ortho_flags', 'pinv_compared', 'size1mode', 'rescaled']),
+                 'rank_deficient', 'overwrite', 'no_ortho_flags', 'pinv_compared', 'size1mode', 'rescaled', 'cut_just_below_a_singular_value']),
 ]
